@@ -308,8 +308,9 @@ func Run(s *Spec, workloadFailed func(exit int, out []byte)) (Stats, bool) {
 					if keep := os.Getenv("VERIF_KEEP"); keep != "" && bytes.Contains(v, []byte(`"ok":false`)) {
 						dst := filepath.Join(keep, fmt.Sprintf("h%d-%s", s.Hi, filepath.Base(x.dir)))
 						os.MkdirAll(keep, 0o755)
-						exec.Command("cp", "-r", x.dir, dst).Run()
-						exec.Command("sh", "-c", "cp "+s.Base+"/oplog "+s.Base+"/plan.json "+dst+"/ 2>/dev/null").Run()
+						// pristine copy: the judged directory has been modified by the reopen
+						x.j.State.Materialize(filepath.Join(dst, "root"))
+						exec.Command("sh", "-c", "cp "+x.dir+"/expect.json "+s.Base+"/oplog "+s.Base+"/plan.json "+dst+"/ 2>/dev/null").Run()
 					}
 					os.RemoveAll(x.dir)
 				case x.dir == begun && !died:
